@@ -52,3 +52,8 @@ CHECKS["C14"] = ("exploration",
   "Each boundary operator is applied to every coordinate of a grid around seven domains (the bounds, their floating-point neighbours, fractional and whole multiples of the width up to 1e6, and six astronomically distant values), alone and embedded next to inside and on-bound coordinates, plus random coordinates; it must terminate (10 s watchdog on a microsecond operation), land within the bounds up to 4 ulp, keep inside coordinates bit-identical and be idempotent. Initialisation operators are checked for exact counts, unevaluated individuals, dimension, half-open domain membership and permutation validity over sizes 0-20, dimensions 0-8 and mixed domains.",
   "Non-termination is observed through a watchdog. At most three time-outs are paid per run; later cases of the same operator are then skipped (the violation is already reported).",
   "DESIGN.md §6 C14")
+CHECKS["C17"] = ("exploration",
+  "grid-exhaustive + proptest cells (margin x temperature) with seeded frequency tests against exp(-delta/T) (6 sigma), exact edge cases, metamorphic monotonicity in T, exact cooling",
+  "For every cell of a margin x temperature grid (better / equal / worse by 1e-9 .. 1e6; T from 1e-300 to 1e300) and random cells, N seeded trials run the real component on a prepared stack: the two populations must collapse to one holding exactly the current or the candidate individual, a candidate at least as good must always win, and the acceptance frequency of a worse one must match exp(-delta/T) within 6 sigma (exactly never / always where the exponential under- or overflows). GeometricCooling is compared bit-exactly over repeated executions.",
+  "Deviations of the acceptance probability inside the 6-sigma band for N trials are invisible.",
+  "DESIGN.md §6 C17")
